@@ -276,10 +276,10 @@ class _Ctx(object):
         return v["name"]
 
 
-def _path_expr(ctx, path, style, prelude):
+def _path_expr(ctx, path, style, prelude, name=None):
     if style == "lit":
         return repr(path)
-    name = "PATH_" + hashlib.md5(path.encode()).hexdigest()[:6].upper()
+    name = name or "PATH_" + hashlib.md5(path.encode()).hexdigest()[:6].upper()
     if style == "var":
         line = "%s = %r" % (name, path)
     else:
@@ -321,7 +321,7 @@ def _render_fn_lines(p, fid, ctx, prelude):
     f = p["fns"][fid]
     lines = []
     if f["data_path"] is not None:
-        lines.append("@dds.data_function(%s)" % _path_expr(ctx, f["data_path"], f.get("path_style", "lit"), prelude))
+        lines.append("@dds.data_function(%s)" % _path_expr(ctx, f["data_path"], f.get("path_style", "lit"), prelude, f.get("path_name")))
     ps = ", ".join(n if d is None else "%s=%s" % (n, d) for n, d in f["params"])
     lines.append("def %s(%s):" % (f["name"], ps))
     lines.append("    # %s" % f["comment"])
